@@ -32,10 +32,12 @@ Print Assumptions C14_roundup_least.
    final note, arbitrary padding bytes, known and unknown owners and types), placed at any
    offset of any image and followed by anything, is iterated to exactly the encoded notes:
    owner, type name or number, raw descriptor, decoded descriptor, offset, padded size; no
-   error, nothing more *)
-Theorem C14_notes_exact : forall c ns (pre tail : list Z),
+   error, nothing more.  [adv i] is the stream cursor at which the generator is resumed for its
+   i-th step: the theorem holds for every such schedule, i.e. whatever the consumer does with
+   the stream between two yields *)
+Theorem C14_notes_exact : forall c adv ns (pre tail : list Z),
   wf_cfg c = true -> wf_notes (scfg_of c) ns = true ->
-  iter_notes c (pre ++ encode_notes (scfg_of c) ns ++ tail) (zlen pre) (zlen (encode_notes (scfg_of c) ns))
+  iter_notes c (pre ++ encode_notes (scfg_of c) ns ++ tail) adv (zlen pre) (zlen (encode_notes (scfg_of c) ns))
   = (expected_notes (scfg_of c) (zlen pre) ns, None).
 Proof. exact notes_exact. Qed.
 Print Assumptions C14_notes_exact.
@@ -54,30 +56,30 @@ Proof. exact offsets_consecutive. Qed.
 Print Assumptions C14_offsets_consecutive.
 
 (* one loop iteration, for the record: the note at the cursor and the next cursor *)
-Theorem C14_one_note : forall c n img (A R : list Z),
+Theorem C14_one_note : forall c n img cur (A R : list Z),
   wf_cfg c = true -> wf_note (scfg_of c) n = true ->
   img = A ++ encode_note (scfg_of c) n ++ R ->
-  one_note c img (zlen A) = Ok (expected_note (scfg_of c) (zlen A) n, zlen A + note_size (scfg_of c) n).
+  one_note c img cur (zlen A) = Ok (expected_note (scfg_of c) (zlen A) n, zlen A + note_size (scfg_of c) n).
 Proof. exact one_note_ok. Qed.
 Print Assumptions C14_one_note.
 
 (* ---- the section view and the segment view of the same bytes agree (on every image,
    well-formed or not: both are the same function of offset and size) *)
-Theorem C14_views_agree : forall c img sh ph,
+Theorem C14_views_agree : forall c img adv sh ph,
   rec_z sh "sh_offset" = rec_z ph "p_offset" -> rec_z sh "sh_size" = rec_z ph "p_filesz" ->
-  NoteSection_iter_notes c img sh = NoteSegment_iter_notes c img ph.
+  NoteSection_iter_notes c img adv sh = NoteSegment_iter_notes c img adv ph.
 Proof. exact views_agree. Qed.
 Print Assumptions C14_views_agree.
 
 (* image level: headers decoded from the file itself, wherever they lie *)
-Theorem C14_views_exact : forall c ns (pre tail : list Z) shoff phoff sh ph,
+Theorem C14_views_exact : forall c adv adv' ns (pre tail : list Z) shoff phoff sh ph,
   wf_cfg c = true -> wf_notes (scfg_of c) ns = true ->
   let img := pre ++ encode_notes (scfg_of c) ns ++ tail in
   section_header_at c img shoff = Ok sh -> segment_header_at c img phoff = Ok ph ->
   rec_z sh "sh_offset" = zlen pre -> rec_z sh "sh_size" = zlen (encode_notes (scfg_of c) ns) ->
   rec_z ph "p_offset" = zlen pre -> rec_z ph "p_filesz" = zlen (encode_notes (scfg_of c) ns) ->
-  section_notes_at c img shoff = Ok (expected_notes (scfg_of c) (zlen pre) ns, None) /\
-  segment_notes_at c img phoff = Ok (expected_notes (scfg_of c) (zlen pre) ns, None).
+  section_notes_at c img adv shoff = Ok (expected_notes (scfg_of c) (zlen pre) ns, None) /\
+  segment_notes_at c img adv' phoff = Ok (expected_notes (scfg_of c) (zlen pre) ns, None).
 Proof. exact views_exact. Qed.
 Print Assumptions C14_views_exact.
 
@@ -142,52 +144,52 @@ Print Assumptions C14_property_switch.
 
 (* ---- stabs: a .stab section over any image holding the encoded records yields exactly the
    records, each with its offset *)
-Theorem C14_stabs_exact : forall c ss (pre tail : list Z) sh,
+Theorem C14_stabs_exact : forall c adv ss (pre tail : list Z) sh,
   forallb (wf_stab (c_le c)) ss = true ->
   rec_z sh "sh_offset" = zlen pre -> rec_z sh "sh_size" = zlen (encode_stabs (c_le c) ss) ->
-  StabSection_iter_stabs c (pre ++ encode_stabs (c_le c) ss ++ tail) sh
+  StabSection_iter_stabs c (pre ++ encode_stabs (c_le c) ss ++ tail) adv sh
   = (expected_stabs (c_le c) (zlen pre) ss, None).
 Proof. exact stabs_exact. Qed.
 Print Assumptions C14_stabs_exact.
 
 (* ---- the header fields that do not locate the bytes are free parameters.  Two section headers
    with the same sh_offset and sh_size enumerate the same stabs on every image ... *)
-Theorem C14_stabs_header_free : forall c img sh sh',
+Theorem C14_stabs_header_free : forall c img adv sh sh',
   rec_z sh "sh_offset" = rec_z sh' "sh_offset" -> rec_z sh "sh_size" = rec_z sh' "sh_size" ->
-  StabSection_iter_stabs c img sh = StabSection_iter_stabs c img sh'.
+  StabSection_iter_stabs c img adv sh = StabSection_iter_stabs c img adv sh'.
 Proof. exact stabs_header_free. Qed.
 Print Assumptions C14_stabs_header_free.
 
 (* ... so the result does not depend on sh_entsize: the table is its 12-byte records whatever the
    header's entry size says (0, 12, 20, 1, 2^64-1, ...) *)
-Theorem C14_stabs_entsize_irrelevant : forall c img sh (e : Z),
-  StabSection_iter_stabs c img (("sh_entsize", VZ e) :: sh) = StabSection_iter_stabs c img sh.
-Proof. exact (fun c img sh e => stabs_field_irrelevant c img sh "sh_entsize" (VZ e) ltac:(discriminate) ltac:(discriminate)). Qed.
+Theorem C14_stabs_entsize_irrelevant : forall c img adv sh (e : Z),
+  StabSection_iter_stabs c img adv (("sh_entsize", VZ e) :: sh) = StabSection_iter_stabs c img adv sh.
+Proof. exact (fun c img adv sh e => stabs_field_irrelevant c img adv sh "sh_entsize" (VZ e) ltac:(discriminate) ltac:(discriminate)). Qed.
 Print Assumptions C14_stabs_entsize_irrelevant.
 
 (* file level: the image holds the encoded records and, anywhere, the encoded section header [h];
    every field of [h] other than sh_offset / sh_size (sh_name, sh_type, sh_flags, sh_addr, sh_link,
    sh_info, sh_addralign, sh_entsize) is universally quantified *)
-Theorem C14_stabs_file_exact : forall c ss (pre tail A R : list Z) h img,
+Theorem C14_stabs_file_exact : forall c adv ss (pre tail A R : list Z) h img,
   forallb (wf_stab (c_le c)) ss = true -> wf_shdr (c_le c) (c_is64 c) h = true ->
   sh_offset h = zlen pre -> sh_size h = zlen (encode_stabs (c_le c) ss) ->
   img = pre ++ encode_stabs (c_le c) ss ++ tail ->
   img = A ++ encode_shdr (c_le c) (c_is64 c) h ++ R ->
-  section_stabs_at c img (zlen A) = Ok (expected_stabs (c_le c) (zlen pre) ss, None).
+  section_stabs_at c img adv (zlen A) = Ok (expected_stabs (c_le c) (zlen pre) ss, None).
 Proof. exact stabs_file_exact. Qed.
 Print Assumptions C14_stabs_file_exact.
 
 (* the same for notes: sh_addralign / p_align, sh_link, sh_info, sh_entsize, flags, addresses and
    p_memsz of the two headers are free; the padding is the standard 4 bytes whatever they say *)
-Theorem C14_notes_header_free : forall c img sh sh' ph ph',
+Theorem C14_notes_header_free : forall c img adv sh sh' ph ph',
   rec_z sh "sh_offset" = rec_z sh' "sh_offset" -> rec_z sh "sh_size" = rec_z sh' "sh_size" ->
   rec_z ph "p_offset" = rec_z ph' "p_offset" -> rec_z ph "p_filesz" = rec_z ph' "p_filesz" ->
-  NoteSection_iter_notes c img sh = NoteSection_iter_notes c img sh' /\
-  NoteSegment_iter_notes c img ph = NoteSegment_iter_notes c img ph'.
+  NoteSection_iter_notes c img adv sh = NoteSection_iter_notes c img adv sh' /\
+  NoteSegment_iter_notes c img adv ph = NoteSegment_iter_notes c img adv ph'.
 Proof. exact notes_header_free. Qed.
 Print Assumptions C14_notes_header_free.
 
-Theorem C14_notes_file_exact : forall c ns (pre tail A R A' R' : list Z) h p img,
+Theorem C14_notes_file_exact : forall c adv adv' ns (pre tail A R A' R' : list Z) h p img,
   wf_cfg c = true -> wf_notes (scfg_of c) ns = true ->
   wf_shdr (c_le c) (c_is64 c) h = true -> wf_phdr (c_le c) (c_is64 c) p = true ->
   sh_offset h = zlen pre -> sh_size h = zlen (encode_notes (scfg_of c) ns) ->
@@ -195,10 +197,25 @@ Theorem C14_notes_file_exact : forall c ns (pre tail A R A' R' : list Z) h p img
   img = pre ++ encode_notes (scfg_of c) ns ++ tail ->
   img = A ++ encode_shdr (c_le c) (c_is64 c) h ++ R ->
   img = A' ++ encode_phdr (c_le c) (c_is64 c) p ++ R' ->
-  section_notes_at c img (zlen A) = Ok (expected_notes (scfg_of c) (zlen pre) ns, None) /\
-  segment_notes_at c img (zlen A') = Ok (expected_notes (scfg_of c) (zlen pre) ns, None).
+  section_notes_at c img adv (zlen A) = Ok (expected_notes (scfg_of c) (zlen pre) ns, None) /\
+  segment_notes_at c img adv' (zlen A') = Ok (expected_notes (scfg_of c) (zlen pre) ns, None).
 Proof. exact notes_file_exact. Qed.
 Print Assumptions C14_notes_file_exact.
+
+(* ---- every read of the walk is absolute.  The model carries the stream cursor: [adv i] is where
+   the consumer (reads of other sections, another walk in lock step, seeks) left it when the
+   generator is resumed for step i.  On every image, well-formed or not, the yields are the same
+   for any two schedules: a step starts by seeking, and its relative reads (name, descriptor)
+   follow a seek of the same step *)
+Theorem C14_notes_cursor_free : forall c img adv adv' offset size,
+  iter_notes c img adv offset size = iter_notes c img adv' offset size.
+Proof. exact notes_cursor_free. Qed.
+Print Assumptions C14_notes_cursor_free.
+
+Theorem C14_stabs_cursor_free : forall c img adv adv' sh,
+  StabSection_iter_stabs c img adv sh = StabSection_iter_stabs c img adv' sh.
+Proof. exact stabs_cursor_free. Qed.
+Print Assumptions C14_stabs_cursor_free.
 
 (* ---- non-vacuity: the hypotheses are met by concrete non-trivial inputs, and the statements
    compute on them *)
@@ -223,19 +240,20 @@ Proof. vm_compute. repeat split; reflexivity. Qed.
 
 Example C14_ex_iter :
   let enc := encode_notes (scfg_of ex_cfg) ex_notes in
-  iter_notes ex_cfg ([1; 2; 3] ++ enc ++ [4; 5]) 3 (zlen enc) = (expected_notes (scfg_of ex_cfg) 3 ex_notes, None)
-  /\ length (fst (iter_notes ex_cfg ([1; 2; 3] ++ enc ++ [4; 5]) 3 (zlen enc))) = 4%nat.
+  iter_notes ex_cfg ([1; 2; 3] ++ enc ++ [4; 5]) (fun i => Z.of_nat (7 * i)) 3 (zlen enc)
+  = (expected_notes (scfg_of ex_cfg) 3 ex_notes, None)
+  /\ length (fst (iter_notes ex_cfg ([1; 2; 3] ++ enc ++ [4; 5]) (fun _ => 0) 3 (zlen enc))) = 4%nat.
 Proof. vm_compute. split; reflexivity. Qed.
 
 Example C14_ex_core :
   let enc := encode_notes (scfg_of ex_core) ex_core_notes in
-  iter_notes ex_core (enc ++ [0]) 0 (zlen enc) = (expected_notes (scfg_of ex_core) 0 ex_core_notes, None).
+  iter_notes ex_core (enc ++ [0]) (fun _ => 1000) 0 (zlen enc) = (expected_notes (scfg_of ex_core) 0 ex_core_notes, None).
 Proof. vm_compute. reflexivity. Qed.
 
 Example C14_ex_stabs :
   let ss := [[VZ 1; VZ 0x64; VZ 0; VZ 2; VZ 0x8048000]; [VZ 9; VZ 0x24; VZ 0; VZ 7; VZ 0]] in
   forallb (wf_stab true) ss = true /\
-  StabSection_iter_stabs ex_cfg ([0] ++ encode_stabs true ss ++ [0]) [("sh_offset", VZ 1); ("sh_size", VZ 24)]
+  StabSection_iter_stabs ex_cfg ([0] ++ encode_stabs true ss ++ [0]) (fun i => Z.of_nat i) [("sh_offset", VZ 1); ("sh_size", VZ 24)]
   = (expected_stabs true 1 ss, None).
 Proof. vm_compute. split; reflexivity. Qed.
 
@@ -248,8 +266,8 @@ Example C14_ex_stabs_entsize :
                 sh_link := 5; sh_info := 0xffff; sh_addralign := 4; sh_entsize := e |} in
   let img e := [7; 7] ++ encode_stabs true ss ++ [9] ++ encode_shdr true true (h e) ++ [9; 9] in
   forallb (wf_shdr true true) [h 20; h 1; h 0; h (2 ^ 64 - 1)] = true /\
-  section_stabs_at ex_cfg (img 20) 39 = Ok (expected_stabs true 2 ss, None) /\
-  section_stabs_at ex_cfg (img 1) 39 = Ok (expected_stabs true 2 ss, None) /\
-  section_stabs_at ex_cfg (img (2 ^ 64 - 1)) 39 = Ok (expected_stabs true 2 ss, None) /\
+  section_stabs_at ex_cfg (img 20) (fun _ => 0) 39 = Ok (expected_stabs true 2 ss, None) /\
+  section_stabs_at ex_cfg (img 1) (fun _ => 5) 39 = Ok (expected_stabs true 2 ss, None) /\
+  section_stabs_at ex_cfg (img (2 ^ 64 - 1)) (fun i => Z.of_nat i) 39 = Ok (expected_stabs true 2 ss, None) /\
   length (expected_stabs true 2 ss) = 3%nat.
 Proof. vm_compute. repeat split; reflexivity. Qed.
